@@ -1,7 +1,9 @@
 //! C02 harness: parsing is total and yields in-bounds, consistent syntax.
 //!
 //! usage: c02 gen <seed> <tier> <cases_out>          generate inputs (one per line: `<class> <hex of UTF-8>`)
-//!        c02 work <cases> <out> <start> <end>       run the oracle on cases[start..end) (a child of the watchdog)
+//!        c02 work <cases> <out> <start> <end> [<stride> <offset>]   run the oracle on the cases i in [start,end) with
+//!                                                    i % stride == offset (a child of the watchdog)
+//!        c02 expand <recipe>                        print the text of a recipe case (`@nest:..`, `@chain:..`, `@nestproc,n`)
 //!        c02 ops <seed> <n> <cases_out> <impl_out>  cursor-algebra differential (TokenStream vs Parse/Stream.v)
 //!        c02 opsfile <cases_in> <impl_out>          the same on recorded cases
 //!
@@ -631,7 +633,9 @@ fn oracle(parser: &VHDLParser, text: &str) -> String {
     let _ = verif_take_loop_trace();
     let mut h = Flood {
         v: Vec::new(),
-        limit: 8 * nt + 4 * nchars + 256,
+        // a terminating parse pushes a bounded number of diagnostics per token; error recovery of nested
+        // interface lists may multiply them (finding F54), hence the generous factor
+        limit: 64 * nt + 16 * nchars + 4096,
     };
     let parsed = catch_unwind(AssertUnwindSafe(|| parser.parse_design_source(&source, &mut h)));
     let trace = verif_take_loop_trace();
@@ -772,6 +776,7 @@ fn oracle(parser: &VHDLParser, text: &str) -> String {
 
     // (4) diagnostics
     let mut eofd = 0usize;
+    let ntd = diags.iter().filter(|d| d.message.contains("Nesting too deep")).count();
     for d in diags.iter() {
         let r = d.pos.range();
         if r == ti.eof {
@@ -802,11 +807,12 @@ fn oracle(parser: &VHDLParser, text: &str) -> String {
     viol.truncate(6);
     write!(
         out,
-        "{{\"st\":\"ok\",\"nt\":{},\"nd\":{},\"nlexd\":{},\"eofd\":{},\"units\":[{}],\"trace\":[{}],\"kinds\":{},\"tail_tok\":{},\"last_diag\":\"{}\",\"ids\":{},\"spans\":{},\"touched\":{},\"decls\":{},\"viol\":[{}]}}",
+        "{{\"st\":\"ok\",\"nt\":{},\"nd\":{},\"nlexd\":{},\"eofd\":{},\"ntd\":{},\"units\":[{}],\"trace\":[{}],\"kinds\":{},\"tail_tok\":{},\"last_diag\":\"{}\",\"ids\":{},\"spans\":{},\"touched\":{},\"decls\":{},\"viol\":[{}]}}",
         nt,
         diags.len(),
         nlexdiag,
         eofd,
+        ntd,
         units,
         tr,
         json_str(&kinds),
@@ -1108,31 +1114,82 @@ fn unhex(h: &str) -> String {
     String::from_utf8(b).unwrap()
 }
 
-/// deeply nested constructs (the recursive-descent productions recurse once per level)
-fn deep_forms(n: usize) -> Vec<String> {
-    vec![
-        format!("package p is constant c : integer := {}1{}; end;", "(".repeat(n), ")".repeat(n)),
-        format!("package p is constant c : integer := {}", "(".repeat(n)),
-        format!("package body p is procedure q is begin {} end;", "if a then ".repeat(n)),
-        format!("architecture a of e is begin {}", "b : block begin ".repeat(n)),
-        format!("package p is constant c : boolean := {}x; end;", "not ".repeat(n)),
-        format!("package p is constant c : integer := a{}", "(b".repeat(n)),
-        format!("architecture a of e is begin {}", "g : if c generate ".repeat(n)),
-        format!("package body p is procedure q is begin {}", "loop ".repeat(n)),
-        format!("package p is constant c : integer := {}1; end;", "- ".repeat(n)),
-        format!("package p is constant c : t := {}0{}; end;", "(others => ".repeat(n), ")".repeat(n)),
-        format!("package p is {}", "package q is ".repeat(n)),
-        format!("architecture a of e is begin {} end;", "case x generate when 1 => ".repeat(n)),
-        format!("package body p is procedure q is begin {}", "case x is when 1 => ".repeat(n)),
-        format!("package p is type t is {}", "record a : ".repeat(n)),
-    ]
+/// Recipe inputs: a case line `<class> @<shape>,<n>,<c|u>` is expanded by the worker (the texts are up
+/// to several MB, too bulky for the case file).  `shape_text` is the single source of these texts
+/// (`c02 expand <recipe>` prints one).
+///
+/// nesting shapes: (prefix, open, middle, close, suffix); closed = prefix open^n middle close^n suffix,
+/// unclosed = prefix open^n
+const NEST_SHAPES: &[(&str, &str, &str, &str, &str, &str)] = &[
+    ("paren", "package p is constant c : integer := ", "( ", "1", " )", " ; end ;"),
+    ("if", "package body p is procedure q is begin ", "if a then ", "null ;", " end if ;", " end ; end ;"),
+    ("loop", "package body p is procedure q is begin ", "loop ", "null ;", " end loop ;", " end ; end ;"),
+    ("while", "package body p is procedure q is begin ", "l : while a loop ", "", " end loop ;", " end ; end ;"),
+    ("call", "package p is constant c : integer := a", " ( b", "", " )", " ; end ;"),
+    ("aggregate", "package p is constant c : t := ", "( others => ", "0", " )", " ; end ;"),
+    ("qualified", "package p is constant c : t := ", "t ' ( ", "0", " )", " ; end ;"),
+    ("block", "architecture a of e is begin ", "b : block begin ", "", " end block ;", " end ;"),
+    ("if_generate", "architecture a of e is begin ", "g : if c generate ", "", " end generate ;", " end ;"),
+    ("for_generate", "architecture a of e is begin ", "g : for i in 0 to 1 generate ", "", " end generate ;", " end ;"),
+    ("case_generate", "architecture a of e is begin ", "g : case x generate when 1 => ", "", " end generate ;", " end ;"),
+    ("case", "package body p is procedure q is begin ", "case x is when 1 => ", "null ;", " end case ;", " end ; end ;"),
+    ("not", "package p is constant c : boolean := ", "not ", "x", "", " ; end ;"),
+    ("minus", "package p is constant c : integer := ", "- ", "1", "", " ; end ;"),
+    ("abs_paren", "package p is constant c : integer := ", "abs ( - ", "1", " )", " ; end ;"),
+    ("subprogram_body", "package body p is ", "procedure q is ", "", " begin end ;", " end ;"),
+    ("function_body", "package body p is ", "function f return t is ", "", " begin return 1 ; end ;", " end ;"),
+    ("package", "package p is ", "package q is ", "", " end ;", " end ;"),
+    ("protected_body", "package body p is ", "type t is protected body ", "", " end protected body ;", " end ;"),
+    ("record", "package p is type t is ", "record a : ", "bit ;", " end record ;", " end ;"),
+    ("constraint", "package p is signal s : t ", "( a ", "( 1 to 2 )", " )", " ; end ;"),
+    ("array_constraint", "package p is subtype s is t ", "( open ) ", "", "", " ; end ;"),
+    ("resolution", "package p is subtype s is ", "( r ", "", " )", " t ; end ;"),
+    ("external_name", "package p is constant c : integer := ", "<< signal s : t ( ", "1", " ) >>", " ; end ;"),
+    ("interface_subprogram", "package p is ", "procedure q ( procedure r ", "", " )", " ; end ;"),
+    ("block_configuration", "configuration c of e is for a ", "for b ", "", " end for ;", " end for ; end ;"),
+    ("component_configuration", "configuration c of e is for a ", "for all : c use entity w . e ; for a ", "", " end for ; end for ;", " end for ; end ;"),
+    ("process_if", "architecture a of e is begin process begin ", "if a then ", "", " end if ;", " end process ; end ;"),
+];
+/// iterative chains: (prefix, link, suffix): prefix link^n suffix
+const CHAIN_SHAPES: &[(&str, &str, &str, &str)] = &[
+    ("plus", "package p is constant c : integer := 1", " + 1", " ; end ;"),
+    ("and", "package p is constant c : boolean := a", " and a", " ; end ;"),
+    ("concat", "package p is constant c : string := \"a\"", " & \"a\"", " ; end ;"),
+    ("dot", "package p is constant c : integer := a", " . b", " ; end ;"),
+    ("index", "package p is constant c : integer := a", " ( 1 )", " ; end ;"),
+    ("tick", "package p is constant c : integer := a", " ' b", " ; end ;"),
+    ("elsif", "package body p is procedure q is begin if a then null ;", " elsif a then null ;", " end if ; end ; end ;"),
+    ("waveform", "architecture a of e is begin s <= '0'", " , '1' after 1 ns", " ; end ;"),
+    ("when_else", "architecture a of e is begin s <= '0'", " when a else '1'", " ; end ;"),
+];
+
+fn shape_text(recipe: &str) -> String {
+    let f: Vec<&str> = recipe.split(',').collect();
+    let n: usize = f[1].parse().unwrap();
+    if let Some(name) = f[0].strip_prefix("nest:") {
+        let (_, pre, open, mid, close, suf) = NEST_SHAPES.iter().find(|x| x.0 == name).unwrap();
+        if f.get(2) == Some(&"u") {
+            format!("{}{}", pre, open.repeat(n))
+        } else {
+            format!("{}{}{}{}{}", pre, open.repeat(n), mid, close.repeat(n), suf)
+        }
+    } else if let Some(name) = f[0].strip_prefix("chain:") {
+        let (_, pre, link, suf) = CHAIN_SHAPES.iter().find(|x| x.0 == name).unwrap();
+        format!("{}{}{}", pre, link.repeat(n), suf)
+    } else if f[0] == "nestproc" {
+        // procedure q (procedure q (a : integer; procedure q (a : integer; ...   (unclosed)
+        format!("package p is procedure q ( procedure q ( {}", "a : integer ; procedure q ( ".repeat(n))
+    } else {
+        panic!("unknown recipe {}", recipe)
+    }
 }
 
 fn gen(seed: u64, tier: &str, out_path: &str) {
-    // tier = quick | thorough, optionally followed by `+deep` (also the nesting depths at which the
-    // parser is known to overflow its stack; only passed when that finding is a listed known finding)
-    let with_deep_crash = tier.ends_with("+deep");
-    let tier = tier.trim_end_matches("+deep");
+    // tier = quick | thorough, 
+    // flags: `+chain` / `+nestproc` add the lengths at which the open known findings F53 / F54 manifest
+    let with_chain = tier.contains("+chain");
+    let with_nestproc = tier.contains("+nestproc");
+    let tier = tier.split('+').next().unwrap();
     let scale = if tier == "thorough" { 30 } else { 1 };
     let mut r = Rng::new(seed ^ 0xC02);
     let mut f = std::io::BufWriter::new(std::fs::File::create(out_path).unwrap());
@@ -1375,27 +1432,45 @@ fn gen(seed: u64, tier: &str, out_path: &str) {
             emit("exhaustive", &text.join(" "));
         }
     }
-    // 10. nesting depth
-    for n in [50usize, 200, 600] {
-        for t in deep_forms(n) {
-            emit("deep", &t);
-        }
-    }
-    if with_deep_crash {
-        for n in [5000usize, 20000] {
-            for t in deep_forms(n) {
-                emit("deep-crash", &t);
+    emit("nonlatin", "x\u{20ac}");
+    emit("nonlatin", "entity e is end; -- \u{1F600}\n\u{20ac} entity");
+    // 10. nesting depth (regression of F41: limit 256 since 674ec0b), long iterative chains, nested
+    //     interface subprograms; each on the main thread and on a 2 MiB-stack thread (`@2m`)
+    let mut emit_recipe = |class: String, recipe: String| {
+        writeln!(f, "{} @{}", class, recipe).unwrap();
+        writeln!(f, "{}@2m @{}", class, recipe).unwrap();
+    };
+    for (name, ..) in NEST_SHAPES.iter() {
+        for n in [50usize, 200, 600, 5000, 20000, 100000] {
+            for cu in ["c", "u"] {
+                emit_recipe(format!("deep/{}/{}/{}", name, n, cu), format!("nest:{},{},{}", name, n, cu));
             }
         }
     }
-    emit("nonlatin", "x\u{20ac}");
-    emit("nonlatin", "entity e is end; -- \u{1F600}\n\u{20ac} entity");
+    for (name, ..) in CHAIN_SHAPES.iter() {
+        for n in [100usize, 500] {
+            emit_recipe(format!("long_chain/{}/{}", name, n), format!("chain:{},{}", name, n));
+        }
+        if with_chain {
+            for n in [4000usize, 20000, 100000] {
+                emit_recipe(format!("long_chain/{}/{}", name, n), format!("chain:{},{}", name, n));
+            }
+        }
+    }
+    for n in [1usize, 5, 10] {
+        emit_recipe(format!("nested_interface_subprogram_unclosed/{}", n), format!("nestproc,{}", n));
+    }
+    if with_nestproc {
+        for n in [24usize, 40] {
+            emit_recipe(format!("nested_interface_subprogram_unclosed/{}", n), format!("nestproc,{}", n));
+        }
+    }
 }
 
 // ---------------------------------------------------------------------------------------------
 // worker
 // ---------------------------------------------------------------------------------------------
-fn work(cases: &str, out_path: &str, start: usize, end: usize) {
+fn work(cases: &str, out_path: &str, start: usize, end: usize, stride: usize, offset: usize) {
     let parser = VHDLParser::new(VHDLStandard::VHDL2008);
     use std::io::BufRead;
     let reader = std::io::BufReader::with_capacity(1 << 20, std::fs::File::open(cases).unwrap());
@@ -1404,7 +1479,7 @@ fn work(cases: &str, out_path: &str, start: usize, end: usize) {
         if i >= end {
             break;
         }
-        if i < start {
+        if i < start || i % stride != offset {
             continue;
         }
         let line = line.unwrap();
@@ -1413,8 +1488,20 @@ fn work(cases: &str, out_path: &str, start: usize, end: usize) {
         let h = it.next().unwrap_or("");
         writeln!(out, "B {}", i).unwrap();
         out.flush().unwrap();
-        let input = unhex(h);
-        let res = oracle(&parser, &input);
+        let input = if let Some(recipe) = h.strip_prefix('@') { shape_text(recipe) } else { unhex(h) };
+        let res = if class.ends_with("@2m") {
+            // the stack size of rayon / std worker threads
+            std::thread::scope(|sc| {
+                std::thread::Builder::new()
+                    .stack_size(2 << 20)
+                    .spawn_scoped(sc, || oracle(&parser, &input))
+                    .unwrap()
+                    .join()
+                    .unwrap_or_else(|_| "{\"st\":\"panic\",\"msg\":\"oracle thread panicked\",\"viol\":[\"oracle thread panicked\"]}".to_string())
+            })
+        } else {
+            oracle(&parser, &input)
+        };
         // the result object gets the class and the character count
         writeln!(
             out,
@@ -1695,7 +1782,15 @@ fn main() {
     let a: Vec<String> = std::env::args().collect();
     match a.get(1).map(|s| s.as_str()) {
         Some("gen") => gen(a[2].parse().unwrap(), &a[3], &a[4]),
-        Some("work") => work(&a[2], &a[3], a[4].parse().unwrap(), a[5].parse().unwrap()),
+        Some("work") => work(
+            &a[2],
+            &a[3],
+            a[4].parse().unwrap(),
+            a[5].parse().unwrap(),
+            a.get(6).map(|x| x.parse().unwrap()).unwrap_or(1),
+            a.get(7).map(|x| x.parse().unwrap()).unwrap_or(0),
+        ),
+        Some("expand") => print!("{}", shape_text(a[2].trim_start_matches('@'))),
         Some("ops") => ops_mode(a[2].parse().unwrap(), a[3].parse().unwrap(), &a[4], &a[5]),
         Some("opsfile") => ops_file(&a[2], &a[3]),
         _ => {
